@@ -417,7 +417,8 @@ class Simplifier(walkers.dag.DagWalker):
             if right.constant_value() < 0:
                 value = -right.constant_value()
                 fnode_constant_values = self._number_to_fnode(value)
-                return self.manager.Plus(left, fnode_constant_values)
+                # let walk_plus flatten and accumulate: left may be a sum itself
+                return self.walk_plus(expression, [left, fnode_constant_values])
             else:
                 return self.manager.Minus(left, right)
         else:
